@@ -82,14 +82,15 @@ def system_spec(max_types=3, big=False, methods=('krylov',), min_types=1, allow_
                              st.lists(specs.fl(0.1, 1.0, 3), min_size=n, max_size=n), specs.logfloat(-3, -0.4, 3),
                              st.lists(st.tuples(st.integers(0, 13), st.booleans()), min_size=n * (n + 1) // 2, max_size=n * (n + 1) // 2),
                              st.sampled_from(list(methods)), st.booleans(),
-                             st.one_of(st.none(), st.none(), st.tuples(st.integers(1, 12), st.integers(1, 12), st.sampled_from([1.0, 1.2])))
+                             st.one_of(st.none(), st.none(), st.tuples(st.integers(1, 12), st.integers(1, 12), st.sampled_from([1.0, 1.2]))),
+                             st.lists(st.sampled_from([None, None, None, None, 0.8, 1.0, 1.2, 0.890899]), min_size=n * (n + 1) // 2, max_size=n * (n + 1) // 2)
                              ).map(lambda t: assemble(n, dr, kT, d, *t, allow_ms=allow_ms))
         return dias.flatmap(with_dias)
     return st.tuples(st.integers(min_types, max_types), st.sampled_from([0.1, 0.1, 0.05, 0.2, 0.25, 0.125]),
                      st.one_of(st.just(1.0), specs.logfloat(-0.3, 0.7, 3))).flatmap(lambda t: body(*t))
 
 
-def assemble(n, dr, kT, dias, length, om_self, pots, split, eta, clo_draw, method, intermol, diblock=None, allow_ms=True):
+def assemble(n, dr, kT, dias, length, om_self, pots, split, eta, clo_draw, method, intermol, diblock=None, sig_draw=None, allow_ms=True):
     w = np.asarray(split, dtype=float)
     dias = list(dias)
     om_self = list(om_self)
@@ -113,7 +114,10 @@ def assemble(n, dr, kT, dias, length, om_self, pots, split, eta, clo_draw, metho
             spec['omega'][key(i, j)] = ['InterMolecular' if intermol else 'NoIntra', {}]
             if diblock is not None and (i, j) == (0, 1):
                 spec['omega'][key(i, j)] = ['Diblock', dict(om_self[0][1], part='AB')]
-        spec['potential'][key(i, j)] = pots[idx]
+        spec['potential'][key(i, j)] = list(pots[idx])
+        if sig_draw is not None and sig_draw[idx] is not None:
+            # an explicitly given potential sigma (the closure's core still follows the diameters)
+            spec['potential'][key(i, j)] = [pots[idx][0], pots[idx][1], float('%.6g' % (sig_draw[idx] * (dias[i] + dias[j]) / 2.0))]
     for idx, (i, j) in enumerate(pair_indices(n)):
         single = om_self[i][0] == 'SingleSite' and om_self[j][0] == 'SingleSite'
         c, flag = clo_draw[idx]
